@@ -61,13 +61,17 @@ def run_case(case, agg, tag):
         #         i.e. through the line-count/header cache, twice: cold then warm)
         via_csvpaths = case.get("via_csvpaths", False)
 
+        shared = {}
+
         def make():
             if not via_csvpaths:
                 return env.new_csvpath(["raise", "collect"], **kw)
             from csvpath import CsvPaths
             from csvpath.util.error import ErrorCommsManager
 
-            cs = CsvPaths(print_default=False, **kw)
+            if "cs" not in shared:
+                shared["cs"] = CsvPaths(print_default=False, **kw)
+            cs = shared["cs"]
             cpath = cs.csvpath()
             cpath.config.csvpath_errors_policy = ["raise", "collect"]
             cpath._ecoms = ErrorCommsManager(csvpath=cpath)
@@ -76,7 +80,8 @@ def run_case(case, agg, tag):
         if via_csvpaths:
             warm, _ = make()
             try:
-                warm.collect(f"${fname}[*][yes()]")
+                # an earlier job of the same instance that extends its own lines must not change what later jobs see
+                warm.collect(f'${fname}[*][append("zz_extra", line_number())]')
             except Exception:  # noqa
                 pass
         c, cap = make()
